@@ -150,8 +150,16 @@ class AnmCases:
         # a per-node table prepared by the constructor (self._parents[i] with self._parents = [<expr of k> for k in range(p)]) is that expression at k = i
         if a[0] == "sub" and a[2][0] == "tuple" and len(a[2][1]) == 2:
             sel = a[2][1][1]
-            if sel[0] == "sub" and sel[2] == self.i and sel[1][0] == "self" and sel[1][1] in self.tables:
-                a = ("sub", a[1], ("tuple", (a[2][1][0], subst(self.tables[sel[1][1]], {NODE_VAR: self.i}))))
+            def untable(t_):
+                # self._tab[i], also under a conversion (list(self._tab[i]), np.array(self._tab[i])): the table's expression at k = i
+                if isinstance(t_, tuple) and len(t_) == 3 and t_[0] == "sub" and t_[2] == self.i and isinstance(t_[1], tuple) and t_[1][0] == "self" and t_[1][1] in self.tables:
+                    return subst(self.tables[t_[1][1]], {NODE_VAR: self.i})
+                if isinstance(t_, tuple) and len(t_) == 4 and t_[0] == "ext" and t_[1] in ("list", "sorted", "tuple", "numpy.array", "numpy.asarray") and len(t_[2]) >= 1:
+                    return (t_[0], t_[1], (untable(t_[2][0]),) + tuple(t_[2][1:]), t_[3])
+                return t_
+            sel2 = untable(sel)
+            if sel2 != sel:
+                a = ("sub", a[1], ("tuple", (a[2][1][0], sel2)))
         colA = ("sub", ("self", "A"), ("tuple", (FULL, self.i)))
         masks = [("cmp", "!=", colA, ("const", 0)), ("method", colA, "astype", (("extref", "bool"),), ()),
                  # index lists in increasing order select the same columns in the same order as the boolean mask
